@@ -2261,6 +2261,72 @@ theorem modifyParams_hist {h : Heap} {X : Oid} {us : List PUpd} {h' : Heap}
       apply getPar_of_look; rw [look_put, if_pos rfl, if_pos hPlt]
     rw [paramHist_eq hs' hp', paramHist_eq hs hp, applyUpds_ok p us hu]
 
+/-! ## What one modification can write -/
+
+theorem look_bindVar_other {h : Heap} (s : SysObj) (m : List (String × Oid)) (name : String) (w : VarObj)
+    {i : Nat} (hi : i < h.next) (hne : i ≠ s.vars) : (bindVar h s m name w).look i = h.look i := by
+  show ((h.allocs [.var w]).put s.vars _).look i = _
+  rw [look_put_ne _ _ (Ne.symm hne), look_allocs_lt h _ hi]
+
+/-- a modification of `X` writes, among the objects that exist, at most `X` itself, its variable
+    dict and its parameter tree -/
+theorem applyMod_look_other {h : Heap} {X : Oid} {sX : SysObj} (hs : h.getSys X = some sX) (m : Mod)
+    {i : Nat} (hi : i < h.next) (h1 : i ≠ X) (h2 : i ≠ sX.vars) (h3 : i ≠ sX.params) :
+    (applyMod h X m).1.look i = h.look i := by
+  have load : ∀ (h0 : Heap) (cls : ClassDef) (u : Bool), h0.getSys X = some sX → i < h0.next →
+      (loadVariable h0 X cls u).1.look i = h0.look i := by
+    intro h0 cls u hs0 hi0
+    rcases loadVariable_inv h0 X cls u with ⟨e, he⟩ | ⟨s, m0, v, hs', _, _, _, he⟩
+    · rw [he]
+    · rw [he]
+      rw [hs0] at hs'; cases hs'
+      exact look_bindVar_other _ _ _ _ hi0 h2
+  cases m with
+  | add c => exact load h c false hs hi
+  | update c => exact load h c true hs hi
+  | replace c =>
+    change (replaceVariable h X c).1.look i = h.look i
+    rcases replaceVariable_inv h X c with ⟨e, he⟩ | ⟨s, m0, _, _, _, he⟩ | ⟨s, m0, vid, hs', hm', _, he⟩
+    · rw [he]
+    · rw [he]; exact load h c false hs hi
+    · rw [he]
+      rw [hs] at hs'; cases hs'
+      have hsX : (h.put sX.vars (.vmap (dictDel c.name m0))).getSys X = some sX := by
+        rw [getSys_congr (look_put_ne _ _ (ne_of_look (look_of_getMap hm') (look_of_getSys hs) (by simp)))]
+        exact hs
+      rw [load _ c false hsX (by rw [next_put]; exact hi), look_put_ne _ _ (Ne.symm h2)]
+  | neutralize nm =>
+    change (neutralizeVar h X nm).1.look i = h.look i
+    rcases neutralizeVar_inv h X nm with ⟨e, he⟩ | ⟨s, m0, vid, v, c, hs', _, _, _, _, he⟩
+    · rw [he]
+    · rw [he]; rw [hs] at hs'; cases hs'; exact look_bindVar_other _ _ _ _ hi h2
+  | annualize nm =>
+    change (annualizeVar h X nm).1.look i = h.look i
+    rcases annualizeVar_inv h X nm with ⟨e, he⟩ | ⟨s, m0, vid, v, c, hs', _, _, _, _, he⟩
+    · rw [he]
+    · rw [he]; rw [hs] at hs'; cases hs'; exact look_bindVar_other _ _ _ _ hi h2
+  | params us =>
+    change (modifyParams h X us).1.look i = h.look i
+    rcases modifyParams_inv h X us with ⟨e, he⟩ | ⟨s, p, b, p', hs', _, _, _, he⟩ | ⟨s, p, p', r, hs', _, _, _, he⟩
+    · rw [he]
+    · rw [he]; rw [look_put_ne _ _ (Ne.symm h1), look_allocs_lt h _ hi]
+    · rw [he]; rw [hs] at hs'; cases hs'; rw [look_put_ne _ _ (Ne.symm h3)]
+
+/-- the observations of a well-formed system read only its own objects and its variables -/
+theorem obs_congr {h h' : Heap} {Z : Oid} {s : SysObj} {m : List (String × Oid)} {p : ParamTree}
+    (hs : h.getSys Z = some s) (hm : h.getMap s.vars = some m) (hp : h.getPar s.params = some p)
+    (e1 : h'.look Z = h.look Z) (e2 : h'.look s.vars = h.look s.vars) (e3 : h'.look s.params = h.look s.params)
+    (e4 : ∀ name vid, dictGet name m = some vid → h'.look vid = h.look vid) :
+    (∀ name, varObs h' Z name = varObs h Z name) ∧ (∀ pn d, paramObs h' Z pn d = paramObs h Z pn d) := by
+  have hs' : h'.getSys Z = some s := by rw [getSys_congr e1]; exact hs
+  have hm' : h'.getMap s.vars = some m := by rw [getMap_congr e2]; exact hm
+  have hp' : h'.getPar s.params = some p := by rw [getPar_congr e3]; exact hp
+  refine ⟨fun name => ?_, fun pn d => by rw [paramObs_eq hs' hp', paramObs_eq hs hp]⟩
+  rw [varObs_eq hs' hm', varObs_eq hs hm]
+  cases hd : dictGet name m with
+  | none => rfl
+  | some vid => dsimp only; rw [getVar_congr (e4 _ _ hd)]
+
 /-! ## Every variable object can be rebuilt from its class and its baseline (`Variable.clone`) -/
 
 /-- the attributes `Variable.__init__` computes (not the formulas, nor the neutralised flag, which
